@@ -5,10 +5,13 @@ open RV RV.Driver RV.Integrate
 /-
   line protocol of drv_c08 (one `reb_simulation_integrate` call per line):
 
-    I kind exact tmax tmaxinf t dt dld status steps nOdes isBS fuel NB (mask:n)*NB NO (acc:dtdone:dtnew)*NO
+    I kind exact tmax tmaxinf t dt dld status steps nOdes isBS fuel NB (mask:n)*NB NO (acc:dtdone:dtnew)*NO [NC (k:keys)*NC]
 
-  kind    once | halves | janus | adaptive
-  mask    bit0 collision, bit1 user, bit2 escape, bit3 encounter, bit4 sigint, bit5 errMsg
+  keys    pre/wait, each a string over s (space), 1 (arrow-down), 5 (page-down): key presses delivered at boundary k
+          before reb_check_exit is entered / while it waits (integrateP)
+
+  kind    once | halves | janus | adaptive | ias15free (IAS15 controller model without forces, min_dt = dtdone of oracle entry 0)
+  mask    bit0 collision, bit1 user, bit2 escape, bit3 encounter, bit4 sigint, bit5 errMsg, bit6 stepError
   answer  outcome t dt dld steps status syncs nbeats (dt0 t1 dt1 dld1 st)*nbeats      (oldest beat first)
 -/
 
@@ -18,7 +21,7 @@ def flagsOf (tok : String) : Flags :=
     let m := m.toNat!
     { collision := m % 2 == 1, user := (m / 2) % 2 == 1, escape := (m / 4) % 2 == 1,
       encounter := (m / 8) % 2 == 1, sigint := (m / 16) % 2 == 1, errMsg := (m / 32) % 2 == 1,
-      n := n.toNat! }
+      n := n.toNat!, stepError := (m / 64) % 2 == 1 }
   | _ => {}
 
 def oracleOf (tok : String) : Bool × Float × Float :=
@@ -58,6 +61,9 @@ def run (toks : List String) : String :=
             | "halves" => some stepHalves
             | "janus" => some stepJanus
             | "adaptive" => some (stepAdaptive o)
+            | "ias15free" =>
+              -- force-free IAS15: the controller itself is the model; min_dt travels in the first oracle slot
+              some (stepIAS15 (o 0).2.1 ias15RawFree 64)
             | _ => none
           match stepFn? with
           | none => "bad-kind"
@@ -65,7 +71,23 @@ def run (toks : List String) : String :=
             let s : Sim Float := { t := fl t, dt := fl dt, dtLastDone := fl dld, status := status,
                                    exactFinish := exact, stepsDone := steps, nOdes := nOdes,
                                    isBS := isBS == "1", syncs := 0, hist := [] }
-            match integrate stepFn env fuel s (fl tmax) (tmaxinf == "1") with
+            let ctlToks := rest.drop no
+            let keysOf : String → List Ctl := fun ks => ks.toList.filterMap (fun ch =>
+              if ch == 's' then some Ctl.space else if ch == '1' then some Ctl.step1
+              else if ch == '5' then some Ctl.step50 else none)
+            let sched : List (Nat × List Ctl × List Ctl) := match ctlToks with
+              | _nc :: es => es.filterMap (fun e => match e.splitOn ":" with
+                  | [k, ks] => match ks.splitOn "/" with
+                    | [a, b] => some (k.toNat!, keysOf a, keysOf b)
+                    | _ => none
+                  | _ => none)
+              | [] => []
+            let ctl : Nat → List Ctl × List Ctl := fun k =>
+              ((sched.filter (fun e => e.1 == k)).flatMap (fun e => e.2.1),
+               (sched.filter (fun e => e.1 == k)).flatMap (fun e => e.2.2))
+            let res := if ctlToks.isEmpty then integrate stepFn env fuel s (fl tmax) (tmaxinf == "1")
+                       else integrateP stepFn env ctl fuel s (fl tmax) (tmaxinf == "1")
+            match res with
             | .done s => outStr "done" s
             | .blocked s => outStr "blocked" s
             | .outOfFuel s => outStr "fuel" s
